@@ -145,9 +145,6 @@ package x509
 // package initialiser, which govc does not verify: these are ASSUMPTIONS about the composite
 // literal signatureAlgorithmDetails and the oid variables (see notes).
 //@ pred tblRow(i) = signatureAlgorithmDetails[i].algo != UnknownSignatureAlgorithm && signatureAlgorithmDetails[i].hash == sigHash(signatureAlgorithmDetails[i].algo) && signatureAlgorithmDetails[i].pubKeyAlgo == sigKeyAlgo(signatureAlgorithmDetails[i].algo) && (isPSSOid(signatureAlgorithmDetails[i].oid) <==> sigIsPSS(signatureAlgorithmDetails[i].algo))
-// tblAddr: instantiation trigger (the address of row i); a pred so that it is always built from
-// the package variable's current value, never from an SSA temporary.
-//@ pred tblAddr(i) = &signatureAlgorithmDetails[i]
 //@ pred tblLen() = len(signatureAlgorithmDetails)
 //@ pred tblVar() = signatureAlgorithmDetails
 //@ global forall(i, 0, tblLen(), tblRow(i))
@@ -159,12 +156,16 @@ package x509
 // hash handed back is the hash of the requested algorithm, the algorithm identifier is
 // id-RSASSA-PSS exactly for the PSS algorithms, and an algorithm that does not fit the key
 // type, is unknown, or has no hash implementation (MD2) is an error.
+// Loop: the row about to be read (index `it`) satisfies tblRow - a ground instance of the global
+// table invariant, so that the postconditions need no quantifier instantiation (a quantified
+// loop invariant was at the mercy of the solver's heuristics and of unrelated quantified global
+// invariants of package x509); the rows already passed do not name the requested algorithm.
 //@ func signingParamsForPublicKey
 //@   requires typeis(pub, *ecdsa.PublicKey) ==> unboxed(pub, *ecdsa.PublicKey) != nil
 //@   assume_pure rsaPSSParameters
 //@   uses perreturn
 //@   loop 1 invariant same(signatureAlgorithmDetails, tblVar()) && same(tblVar(), old(tblVar())) && same(oidSignatureRSAPSS, old(oidSignatureRSAPSS))
-//@   loop 1 invariant forall(k, 0, tblLen(), tblRow(k))
+//@   loop 1 invariant 0 <= it && (it < tblLen() ==> !(!tblRow(it)))
 //@   loop 1 invariant forall(k, 0, it, signatureAlgorithmDetails[k].algo != requestedSigAlgo)
 //@   ensures  [hash] err == nil && requestedSigAlgo != 0 ==> hashFunc == sigHash(requestedSigAlgo)
 //@   ensures  [pssoid] err == nil && requestedSigAlgo != 0 ==> (isPSSOid(sigAlgo.Algorithm) <==> sigIsPSS(requestedSigAlgo))
@@ -196,6 +197,7 @@ package x509
 //@ pred signOptsOK(opts, pss, h) = (pss ==> typeis(opts, *zcrypto_rsa.PSSOptions) && unboxed(opts, *zcrypto_rsa.PSSOptions) != nil && unboxed(opts, *zcrypto_rsa.PSSOptions).SaltLength == -1 && unboxed(opts, *zcrypto_rsa.PSSOptions).Hash == h) && (!pss ==> typeis(opts, crypto.Hash) && unboxed(opts, crypto.Hash) == h)
 
 //@ func CreateCertificate
+//@   at call Signer).Sign assert false
 //@   requires template != nil && parent != nil
 //@   maypanic
 //@   assume_pure marshalPublicKey
